@@ -98,6 +98,22 @@ def lock_work():
     fcntl.flock(_lock_fd, fcntl.LOCK_EX)
 
 
+def crate_for_repo(src_crate, name):
+    """The registered checks build against /repo. For experiments against a scratch copy of the
+    repository (VERIF_REPO=<dir>), build from a copy of the crate whose path dependency points there."""
+    repo = os.environ.get("VERIF_REPO")
+    if not repo or os.path.abspath(repo) == "/repo":
+        return src_crate
+    dst = os.path.join(WORK, "crate-copy-" + name)
+    shutil.rmtree(dst, ignore_errors=True)
+    shutil.copytree(src_crate, dst, ignore=shutil.ignore_patterns("target"))
+    ct = os.path.join(dst, "Cargo.toml")
+    t = open(ct).read().replace('path = "/repo"', 'path = "%s"' % os.path.abspath(repo))
+    t = t.replace('path = "../vendor/', 'path = "%s/' % os.path.join(VERIF, "vendor"))
+    open(ct, "w").write(t)
+    return dst
+
+
 def codegen(filters, stubbing=True, log=None):
     """Build /repo + harness crate with the Kani compiler; return {harness: info}."""
     os.makedirs(TARGET, exist_ok=True)
@@ -111,7 +127,7 @@ def codegen(filters, stubbing=True, log=None):
     for f in filters:
         cmd += ["--harness", f]
     t0 = time.time()
-    rc, out, _, to, _ = _run(cmd, timeout=3600, cwd=HARNESS_CRATE)
+    rc, out, _, to, _ = _run(cmd, timeout=3600, cwd=crate_for_repo(HARNESS_CRATE, "kani"))
     if log:
         with open(log, "w") as f:
             f.write(out or "")
@@ -403,7 +419,7 @@ def playback(h, info, resolved_labels_cmd, outdir):
     _keep = res
     try:
         crate = os.path.join(scratch, "kani-harness")
-        shutil.copytree(HARNESS_CRATE, crate, ignore=shutil.ignore_patterns("target"))
+        shutil.copytree(crate_for_repo(HARNESS_CRATE, "kani"), crate, ignore=shutil.ignore_patterns("target"))
         os.symlink(os.path.join(VERIF, "vendor"), os.path.join(scratch, "vendor"))
         cmd = ["cargo", "kani", "-Z", "stubbing", "-Z", "concrete-playback", "--concrete-playback=inplace",
                "--harness", info["pretty"], "--exact", "--target-dir", TARGET]
